@@ -47,9 +47,13 @@ type fsParent struct {
 	donech  chan struct{}
 	closes  int32
 
+	closeTerminates bool // Close() ends the subscription (monitor model); otherwise it is only counted
+	terminated      bool
+
 	listCalls int
-	gate      chan struct{} // non-nil: the next List() call blocks until it is closed
-	atCall    bool          // ... and returns the snapshot taken when it was called (else: when released)
+	lastList  []metav1.Object // what the most recent List() call returned
+	gate      chan struct{}   // non-nil: the next List() call blocks until it is closed
+	atCall    bool            // ... and returns the snapshot taken when it was called (else: when released)
 	onList    chan int
 }
 
@@ -60,9 +64,26 @@ func newFsParent() *fsParent {
 func (p *fsParent) Cache() kcache.CacheReader   { return fsParentCache{p} }
 func (p *fsParent) Ready() <-chan struct{}      { return p.readych }
 func (p *fsParent) Events() <-chan kcache.Event { return p.evch }
-func (p *fsParent) Close()                      { atomic.AddInt32(&p.closes, 1) }
-func (p *fsParent) Done() <-chan struct{}       { return p.donech }
-func (p *fsParent) Error() error                { return nil }
+func (p *fsParent) Close() {
+	atomic.AddInt32(&p.closes, 1)
+	if p.closeTerminates {
+		p.terminate()
+	}
+}
+
+// terminate: what a real subscription does when it ends - Events() closed
+// first, Done() right after.
+func (p *fsParent) terminate() {
+	p.mu.Lock()
+	defer p.mu.Unlock()
+	if !p.terminated {
+		p.terminated = true
+		close(p.evch)
+		close(p.donech)
+	}
+}
+func (p *fsParent) Done() <-chan struct{} { return p.donech }
+func (p *fsParent) Error() error          { return nil }
 
 type fsParentCache struct{ p *fsParent }
 
@@ -95,6 +116,9 @@ func (c fsParentCache) List() ([]metav1.Object, error) {
 			p.mu.Unlock()
 		}
 	}
+	p.mu.Lock()
+	p.lastList = snap
+	p.mu.Unlock()
 	return snap, nil
 }
 
@@ -119,7 +143,9 @@ func (p *fsParent) put(ns, name string, labels map[string]string) int {
 		typ = kcache.EventTypeUpdate
 	}
 	p.state[ns+"/"+name] = o
-	p.evch <- kcache.NewEvent(typ, o)
+	if !p.terminated {
+		p.evch <- kcache.NewEvent(typ, o)
+	}
 	return p.rv
 }
 
@@ -131,7 +157,9 @@ func (p *fsParent) del(ns, name string) bool {
 		return false
 	}
 	delete(p.state, ns+"/"+name)
-	p.evch <- kcache.NewEvent(kcache.EventTypeDelete, o) // like the cache: the Delete carries the object it held
+	if !p.terminated {
+		p.evch <- kcache.NewEvent(kcache.EventTypeDelete, o) // like the cache: the Delete carries the object it held
+	}
 	return true
 }
 
@@ -374,14 +402,7 @@ func fsModelCase(t fsFailer, sc fsScript, perturb bool, pseed uint64) fsCaseInfo
 		}
 		n := &node{kind: "fsub", fsub: fs, leaf: fs, note: make(chan struct{}, 1), eof: make(chan struct{}), tokens: make(chan struct{}, 1)}
 		go n.pump()
-		terminated := false
-		terminate := func() {
-			if !terminated {
-				terminated = true
-				close(p.evch)
-				close(p.donech)
-			}
-		}
+		terminate := p.terminate
 		defer terminate()
 		fail := func(format string, args ...interface{}) {
 			t.Fatalf("C06 violation: %s\n  history: %s", fmt.Sprintf(format, args...), strings.Join(hist, "; "))
